@@ -16,8 +16,9 @@ EXTENDS Integers, Sequences, FiniteSets, TLC
 \* text identities and their length in UTF-16 code units:
 \*  1 ASCII "Alpha"   2 empty   3 BMP non-ASCII (3 units)
 \*  4 surrogate pair + 1 (3 units)   5 2000 units of mixed content
-TextLen == <<5, 0, 3, 3, 2000>>
-Texts == 1..5
+\*  6 Latin-1 beyond ASCII: every code unit below U+0100, some at or above U+0080 (6 units)
+TextLen == <<5, 0, 3, 3, 2000, 6>>
+Texts == 1..6
 MinI(a, b) == IF a < b THEN a ELSE b
 
 Rec(lang, country, tid) == [lang |-> lang, country |-> country, tid |-> tid]
